@@ -94,6 +94,7 @@ def build_harness(variant, name):
         "h_meta": ["h_chunks.c"],
         "h_hostile": ["hostile_core.c"],
         "h_fault": ["hostile_core.c"],
+        "h_route": ["hostile_core.c"],
     }.get(name, [])
     if name == "h_cmd":
         # the command list is taken from the tree's own public header every time
